@@ -268,7 +268,7 @@ impl V {
                         continue;
                     }
                     for ((_, t), (_, p)) in fs.iter().zip(pfs) {
-                        if t.variants().len() >= 2 && !matches!(p, Pat::Bind(_) | Pat::Wild | Pat::Lit(_) | Pat::Str(_) | Pat::Pin(_)) {
+                        if t.variants().len() >= 2 && !matches!(p, Pat::Bind(_) | Pat::Wild | Pat::Lit(_) | Pat::Str(_) | Pat::Pin(_)) && !non_narrowing(p, t) {
                             return Err("sub-pattern narrows a union-typed FIELD (open finding: later run-time tests expect the narrowed tuple id, the value keeps its construction-site id)".into());
                         }
                         // a binder's type is the union over the variants: check against each
@@ -937,6 +937,34 @@ fn pins_of(p: &Pat) -> Vec<String> {
 }
 
 /// a binder that occurs twice with at least one occurrence below the top level of a tuple pattern
+/// A structured sub-pattern on a union-typed field that accepts EVERY variant of the field's type and
+/// constrains nothing inside (binders / placeholders only): the field's type after the match is the
+/// type before it, so the open finding about narrowed field types (the tuple id later tests expect)
+/// does not apply.
+fn non_narrowing(p: &Pat, t: &Ty) -> bool {
+    let plain = |q: &Pat| matches!(q, Pat::Bind(_) | Pat::Wild);
+    match p {
+        Pat::Tup(n, pfs) => {
+            pfs.iter().all(|(_, q)| plain(q))
+                && t.variants().iter().all(|v| match v {
+                    Ty::Tup(m, fs) => m == n && fs.len() == pfs.len() && fs.iter().zip(pfs).all(|(f, q)| f.0 == q.0 && !f.1.contains_nil()),
+                    _ => false,
+                })
+        }
+        Pat::Part(n, pfs) => {
+            pfs.iter().all(|(_, q)| q.as_ref().map(|q| plain(q)).unwrap_or(true))
+                && t.variants().iter().all(|v| match v {
+                    Ty::Tup(m, fs) => {
+                        (n.is_none() || m == n)
+                            && pfs.iter().all(|(l, _)| fs.iter().any(|f| f.0.as_ref() == Some(l) && !f.1.contains_nil()))
+                    }
+                    _ => false,
+                })
+        }
+        _ => false,
+    }
+}
+
 fn nested_repeat(p: &Pat) -> bool {
     fn collect(q: &Pat, depth: usize, out: &mut Vec<(String, usize)>) {
         match q {
